@@ -329,6 +329,16 @@ def all_obligations():
          what='mtf_one(), index < 16: returns the element at that list position, moves it to the front shifting the ones before it, leaves the row pointer and every byte outside the first row unchanged',
          functions=['mtf_one (fast path)'], flags=['--unwind', '20', '--unwinding-assertions'], expect=['mtf_one \\(index < 16\\): returns the element', 'mtf_one \\(index < 16\\): nothing outside'], replayable=True, replay_src='decode.c',
          assumed=['translation invariance of the fast path inside the slide (it only dereferences imtf_row[0] + 0..15)']))
+    for case, desc in ((0, '21 symbols with lengths 1..20,20 (20-bit codes)'), (1, 'flat 8-symbol code'), (2, '13 symbols, lengths out of symbol order across the 10-bit table boundary'), (3, 'smallest alphabet 2,1,2')):
+        for slow in (0, 1):
+            A(Ob(name=f'decode.prefix_decode.c{case}.{"slow" if slow else "fast"}', props=['C06', 'C05', 'C01', 'C08'], kind='bounded', harness='h_decode.c', entry='h_prefix_decode', solver='cadical',
+                 defines={'PD_CASE': str(case), 'PD_SLOW': str(slow)}, tier='quick' if case in (0, 2) else 'thorough', timeout=1200,
+                 bound=f'concrete complete length vector: {desc}; every 63-bit buffer content symbolic',
+                 what='the tables built by the real make_tree() (start/base/count/perm), used by the decoding expression of retrieve() (' + ('slow' if slow else 'fast') + ' path copy, extracted verbatim), decode '
+                      'every buffer content to the symbol whose canonical code word prefixes it and consume exactly that many bits -- including 20-bit codes',
+                 functions=['make_tree (table construction)', 'retrieve (prefix decoding expression)'], flags=['--unwind', '1030', '--unwinding-assertions'],
+                 expect=['prefix decoding: the symbol and length found', 'make_tree: a complete code is accepted'], replayable=True, replay_src='decode.c',
+                 assumed=['section extraction: the 13/16 lines of the decoding expression are copied verbatim; the surrounding loop of retrieve() is dropped']))
     # ---------------- decode.c decode(): inverse BWT (C06 O6.4, C01 O1.2 decoder side)
     for n, tier in ((3, 'quick'), (4, 'thorough')):
         A(Ob(name=f'decode.ibwt.n{n}', props=['C06', 'C01', 'C05', 'C08'], kind='bounded', tier=tier, harness='h_emit.c', entry='h_decode_ibwt', extra_srcs=['src/crctab.c'], solver='cadical',
